@@ -181,7 +181,7 @@ def split_obs(text, n_cases):
     return out
 
 
-def execute(cases, hbin, layers=("impl", "spec"), shards=12, timeout=600):
+def execute(cases, hbin, layers=("impl", "spec"), shards=12, timeout=300):
     """run all cases on the implementation and on the model layers. Returns dict name -> per-case obs."""
     from concurrent.futures import ThreadPoolExecutor
     for i, c in enumerate(cases):
